@@ -115,41 +115,56 @@ Section Sequential.
   Variable n : nat.
   Hypothesis n_pos : 1 <= n.
 
-  Lemma put1_length l i x : i < length l -> length (firstn i l ++ [x] ++ skipn (S i) l) = length l.
+  Lemma nth_firstn_lt (l : list byte) : forall i j d, j < i -> nth j (firstn i l) d = nth j l d.
+  Proof.
+    induction l as [|x l IH]; intros i j d H.
+    - rewrite firstn_nil. reflexivity.
+    - destruct i as [|i]; [lia|]. destruct j as [|j]; simpl; [reflexivity|]. apply IH. lia.
+  Qed.
+
+  Lemma nth_skipn_add (l : list byte) : forall m k d, nth k (skipn m l) d = nth (m + k) l d.
+  Proof.
+    induction l as [|x l IH]; intros m k d.
+    - rewrite skipn_nil. destruct k, m; reflexivity.
+    - destruct m as [|m]; simpl; [reflexivity|]. apply IH.
+  Qed.
+
+  Lemma put1_length (l : list byte) i (x : byte) : i < length l -> length (firstn i l ++ [x] ++ skipn (S i) l) = length l.
   Proof.
     intros H. rewrite !app_length, firstn_length, skipn_length. simpl. lia.
   Qed.
 
-  Lemma put1_nth_same l i x d : i < length l -> nth i (firstn i l ++ [x] ++ skipn (S i) l) d = x.
+  Lemma put1_nth_same (l : list byte) i (x : byte) d : i < length l -> nth i (firstn i l ++ [x] ++ skipn (S i) l) d = x.
   Proof.
     intros H. rewrite app_nth2; rewrite firstn_length; [|lia].
     replace (i - Nat.min i (length l)) with 0 by lia. reflexivity.
   Qed.
 
-  Lemma put1_nth_other l i x j d : i < length l -> j <> i -> nth j (firstn i l ++ [x] ++ skipn (S i) l) d = nth j l d.
+  Lemma put1_nth_other (l : list byte) i (x : byte) j d : i < length l -> j <> i -> nth j (firstn i l ++ [x] ++ skipn (S i) l) d = nth j l d.
   Proof.
     intros H Hj. destruct (Nat.lt_ge_cases j i) as [Hlt|Hge].
-    - rewrite app_nth1 by (rewrite firstn_length; lia). apply nth_firstn. exact Hlt. 
+    - rewrite app_nth1 by (rewrite firstn_length; lia). apply nth_firstn_lt. exact Hlt.
     - rewrite app_nth2 by (rewrite firstn_length; lia). rewrite firstn_length.
       replace (Nat.min i (length l)) with i by lia.
-      destruct (j - i) as [|k] eqn:E; [lia|]. simpl.
-      rewrite nth_skipn. f_equal. lia.
+      destruct (j - i) as [|k] eqn:E; [lia|].
+      change ([x] ++ skipn (S i) l) with (x :: skipn (S i) l). cbn [nth].
+      rewrite nth_skipn_add. f_equal. lia.
   Qed.
 
   Lemma put_length xs : forall l i, i + length xs <= length l -> length (put l i xs) = length l.
   Proof.
-    induction xs as [|x xs IH]; intros l i H; simpl in *; [reflexivity|].
+    induction xs as [|x xs IH]; intros l i H; cbn [put length] in *; [reflexivity|].
     rewrite IH; rewrite put1_length; lia.
   Qed.
 
   Lemma put_nth_in xs : forall l i j d, i + length xs <= length l -> j < length xs ->
     nth (i + j) (put l i xs) d = nth j xs d.
   Proof.
-    induction xs as [|x xs IH]; intros l i j d H Hj; simpl in *; [lia|].
+    induction xs as [|x xs IH]; intros l i j d H Hj; cbn [put length] in *; [lia|].
     destruct j as [|j].
     - rewrite Nat.add_0_r.
       assert (Hout : forall ys l' k, k + length ys <= length l' -> i < k -> nth i (put l' k ys) d = nth i l' d).
-      { induction ys as [|y ys IHy]; intros l' k Hk Hik; simpl in *; [reflexivity|].
+      { induction ys as [|y ys IHy]; intros l' k Hk Hik; cbn [put length] in *; [reflexivity|].
         rewrite IHy; [|rewrite put1_length; lia|lia]. apply put1_nth_other; lia. }
       rewrite Hout; [|rewrite put1_length; lia|lia]. apply put1_nth_same. lia.
     - replace (i + S j) with (S i + j) by lia. apply IH; [rewrite put1_length; lia | lia].
@@ -158,24 +173,22 @@ Section Sequential.
   Lemma put_nth_out xs : forall l i j d, i + length xs <= length l -> (j < i \/ i + length xs <= j) ->
     nth j (put l i xs) d = nth j l d.
   Proof.
-    induction xs as [|x xs IH]; intros l i j d H Hj; simpl in *; [reflexivity|].
+    induction xs as [|x xs IH]; intros l i j d H Hj; cbn [put length] in *; [reflexivity|].
     rewrite IH; [|rewrite put1_length; lia|lia]. apply put1_nth_other; lia.
   Qed.
 
   Definition hend (f : nat) : nat := if f <? n then n else 2 * n.
 
   (* the state of the reader with [rest] still to be returned *)
+  Definition Live (r : rd) (rest : list byte) : Prop :=
+    forward r < 2 * n /\ err r = NoErr /\
+    exists v, v <> [] /\ rest = v ++ src r /\
+              forward r + length v <= hend (forward r) /\
+              (forall j, j < length v -> nth (forward r + j) (buff r) 0%N = nth j v 0%N) /\
+              (forward r + length v < hend (forward r) -> nth (forward r + length v) (buff r) 0%N = 0%N /\ src r = []).
+
   Definition Inv (r : rd) (rest : list byte) : Prop :=
-    length (buff r) = 2 * n /\ forward r < 2 * n /\
-    match rest with
-    | [] => err r = EOF
-    | _ =>
-      err r = NoErr /\
-      exists v, v <> [] /\ rest = v ++ src r /\
-                forward r + length v <= hend (forward r) /\
-                (forall j, j < length v -> nth (forward r + j) (buff r) 0%N = nth j v 0%N) /\
-                (forward r + length v < hend (forward r) -> nth (forward r + length v) (buff r) 0%N = 0%N /\ src r = [])
-    end.
+    length (buff r) = 2 * n /\ (rest = [] -> err r = EOF) /\ (rest <> [] -> Live r rest).
 
   Definition nul_free (l : list byte) : Prop := Forall (fun b => b <> 0%N) l.
 
@@ -189,25 +202,171 @@ Section Sequential.
     (length (firstn n (src r)) < n -> nth (base + length (firstn n (src r))) (buff r') 0%N = 0%N /\ src r' = []).
   Proof.
     intros Hlen Hbase Hsrc. unfold load. destruct (src r) as [|s0 srest] eqn:Es; [contradiction|].
-    set (chunk := firstn n (s0 :: srest)). cbn zeta.
+    set (chunk := firstn n (s0 :: srest)). cbv zeta.
     assert (Hk : length chunk <= n) by (unfold chunk; rewrite firstn_length; lia).
     assert (Hfit : base + length chunk <= length (buff r)) by (destruct Hbase; subst; lia).
-    destruct (length chunk <? n) eqn:Elt; simpl.
+    assert (Hl1 : length (put (buff r) base chunk) = 2 * n) by (rewrite put_length; lia).
+    destruct (length chunk <? n) eqn:Elt; cbn [buff forward err src].
     - apply Nat.ltb_lt in Elt.
-      assert (Hl1 : length (put (buff r) base chunk) = 2 * n) by (rewrite put_length; lia).
-      repeat split.
-      + rewrite (put_length [0%N]); simpl; lia.
-      + symmetry. apply firstn_skipn.
-      + intros j Hj. rewrite (put_nth_out [0%N]); [|simpl; destruct Hbase; subst; lia|simpl; lia].
-        apply put_nth_in; lia.
-      + intros _. replace (base + length chunk) with (base + length chunk + 0) at 1 by lia.
-        rewrite (put_nth_in [0%N]); simpl; try lia. reflexivity. destruct Hbase; subst; lia.
-      + intros _. apply skipn_all2. unfold chunk in Elt. rewrite firstn_length in Elt. lia.
-    - apply Nat.ltb_ge in Elt. repeat split.
-      + rewrite put_length; lia.
-      + symmetry. apply firstn_skipn.
+      assert (Hfit2 : base + length chunk + length [0%N] <= length (put (buff r) base chunk))
+        by (cbn [length]; destruct Hbase; subst; lia).
+      split; [rewrite put_length; [exact Hl1 | exact Hfit2]|].
+      split; [reflexivity|]. split; [reflexivity|].
+      split; [symmetry; apply firstn_skipn|].
+      split.
+      + intros j Hj. rewrite put_nth_out; [|exact Hfit2|left; lia]. apply put_nth_in; lia.
+      + intros _. split.
+        * replace (base + length chunk) with (base + length chunk + 0) at 1 by lia.
+          rewrite put_nth_in; [reflexivity | exact Hfit2 | cbn [length]; lia].
+        * apply skipn_all2. unfold chunk in Elt. rewrite firstn_length in Elt. lia.
+    - apply Nat.ltb_ge in Elt.
+      split; [exact Hl1|]. split; [reflexivity|]. split; [reflexivity|].
+      split; [symmetry; apply firstn_skipn|].
+      split.
       + intros j Hj. apply put_nth_in; lia.
       + intros H. lia.
-      + intros H. lia.
+  Qed.
+
+  Lemma firstn_nonempty (l : list byte) : l <> [] -> firstn n l <> [].
+  Proof. destruct l; [contradiction|]. destruct n; [lia|]. discriminate. Qed.
+
+  (* what a load leaves when [src r] is still to be read, with forward placed at [base] *)
+  Lemma load_inv base r :
+    length (buff r) = 2 * n -> (base = 0 \/ base = n) -> err r = NoErr ->
+    (src r = [] -> err (load n base r) = EOF /\ length (buff (load n base r)) = 2 * n) /\
+    (src r <> [] -> err (load n base r) = NoErr /\ length (buff (load n base r)) = 2 * n /\
+                    Live (with_fwd (load n base r) base) (src r)).
+  Proof.
+    intros Hlen Hbase Herr. split.
+    - intros Es. unfold load. rewrite Es. cbn [err buff]. auto.
+    - intros Hne.
+      destruct (load_spec base r Hlen Hbase Hne) as [H1 [H2 [H3 [H4 [H5 H6]]]]].
+      split; [rewrite H3; exact Herr|]. split; [exact H1|].
+      unfold Live. cbn [with_fwd buff forward err src].
+      assert (Hb : base < 2 * n) by (destruct Hbase; subst; lia).
+      split; [exact Hb|]. split; [rewrite H3; exact Herr|].
+      exists (firstn n (src r)). split; [apply firstn_nonempty; exact Hne|].
+      split; [exact H4|].
+      assert (Hh : hend base = base + n).
+      { unfold hend. destruct Hbase as [-> | ->].
+        - assert (E : (0 <? n) = true) by (apply Nat.ltb_lt; lia). rewrite E. lia.
+        - rewrite Nat.ltb_irrefl. lia. }
+      rewrite Hh. split; [rewrite firstn_length; lia|]. split; [exact H5|].
+      intros Hlt. apply H6. lia.
+  Qed.
+
+  Lemma load_forward base r : forward (load n base r) = forward r.
+  Proof. unfold load. destruct (src r); reflexivity. Qed.
+
+  Lemma with_fwd_same r : with_fwd r (forward r) = r.
+  Proof. destruct r; reflexivity. Qed.
+
+  Lemma new_inv file : Inv (new n file) file.
+  Proof.
+    unfold new. set (r0 := {| buff := repeat 0%N (2 * n); forward := 0; lexeme_begin := 0; err := NoErr; src := file |}).
+    assert (Hlen : length (buff r0) = 2 * n) by (cbn [buff r0]; apply repeat_length).
+    destruct (load_inv 0 r0 Hlen (or_introl eq_refl) eq_refl) as [He Hl]. cbn [src r0] in He, Hl.
+    unfold Inv. split.
+    - destruct file as [|b f]; [apply He; reflexivity | apply Hl; discriminate].
+    - split.
+      + intros ->. apply He. reflexivity.
+      + intros Hne. destruct (Hl Hne) as [_ [_ HL]].
+        assert (E : with_fwd (load n 0 r0) 0 = load n 0 r0).
+        { rewrite <- (with_fwd_same (load n 0 r0)) at 2. rewrite load_forward. reflexivity. }
+        rewrite E in HL. exact HL.
+  Qed.
+
+  Lemma hend_bounds f : f < 2 * n -> f < hend f /\ hend f <= 2 * n /\ (hend f = n \/ hend f = 2 * n).
+  Proof.
+    intros H. unfold hend. destruct (f <? n) eqn:E.
+    - apply Nat.ltb_lt in E. lia.
+    - apply Nat.ltb_ge in E. lia.
+  Qed.
+
+  (* one read: returns the next byte of the file and re-establishes the invariant *)
+  Lemma next_step r b rest :
+    nul_free (b :: rest) -> Inv r (b :: rest) ->
+    fst (next n r) = Some b /\ Inv (snd (next n r)) rest.
+  Proof.
+    intros Hnf [Hlen [_ HL]]. destruct (HL ltac:(discriminate)) as [Hf [Herr [v [Hv [Hrest [Hfit [Hcells Hmark]]]]]]].
+    destruct v as [|b0 v']; [contradiction|]. simpl in Hrest. inversion Hrest as [[Eb Er]]. subst b0.
+    assert (Hb : nth (forward r) (buff r) 0%N = b).
+    { specialize (Hcells 0 ltac:(simpl; lia)). rewrite Nat.add_0_r in Hcells. exact Hcells. }
+    destruct (hend_bounds (forward r) Hf) as [Hlt [Hle Hcase]].
+    unfold next. rewrite Herr. cbn [fst snd]. split; [rewrite Hb; reflexivity|].
+    set (r1 := with_fwd r (S (forward r))).
+    assert (Hlen1 : length (buff r1) = 2 * n) by exact Hlen.
+    assert (Herr1 : err r1 = NoErr) by exact Herr.
+    cbn [length] in Hfit.
+    destruct (S (forward r) =? n) eqn:E1.
+    - (* end of the first half: the second half is loaded *)
+      apply Nat.eqb_eq in E1.
+      assert (Hh : hend (forward r) = n) by (unfold hend; assert (X : (forward r <? n) = true) by (apply Nat.ltb_lt; lia); rewrite X; reflexivity).
+      assert (Hv' : v' = []) by (destruct v'; [reflexivity | cbn [length] in Hfit; lia]). subst v'. simpl in Er.
+      destruct (load_inv n r1 Hlen1 (or_intror eq_refl) Herr1) as [He Hl']. cbn [src r1 with_fwd] in He, Hl'.
+      unfold Inv. destruct rest as [|c rest'].
+      + destruct (He (eq_sym Er)) as [H1 H2]. split; [exact H2|]. split; [intros _; exact H1 | intros X; contradiction].
+      + assert (Hne : src r <> []) by (rewrite <- Er; discriminate).
+        destruct (Hl' Hne) as [H1 [H2 H3]]. split; [exact H2|]. split; [intros X; discriminate|]. intros _.
+        assert (E : with_fwd (load n n r1) n = load n n r1).
+        { rewrite <- (with_fwd_same (load n n r1)) at 2. rewrite load_forward. unfold r1. cbn [forward with_fwd]. rewrite E1. reflexivity. }
+        rewrite E in H3. rewrite Er. exact H3.
+    - apply Nat.eqb_neq in E1. destruct (S (forward r) =? 2 * n) eqn:E2.
+      + (* end of the second half: the first half is loaded and forward wraps *)
+        apply Nat.eqb_eq in E2.
+        assert (Hh : hend (forward r) = 2 * n).
+        { unfold hend. assert (X : (forward r <? n) = false) by (apply Nat.ltb_ge; lia). rewrite X. reflexivity. }
+        assert (Hv' : v' = []) by (destruct v'; [reflexivity | cbn [length] in Hfit; lia]). subst v'. simpl in Er.
+        destruct (load_inv 0 r1 Hlen1 (or_introl eq_refl) Herr1) as [He Hl']. cbn [src r1 with_fwd] in He, Hl'.
+        unfold Inv. destruct rest as [|c rest'].
+        * destruct (He (eq_sym Er)) as [H1 H2]. rewrite H1. split; [exact H2|]. split; [intros _; exact H1 | intros X; contradiction].
+        * assert (Hne : src r <> []) by (rewrite <- Er; discriminate).
+          destruct (Hl' Hne) as [H1 [H2 H3]]. rewrite H1. cbn [buff with_fwd]. split; [exact H2|].
+          split; [intros X; discriminate|]. intros _. rewrite Er. exact H3.
+      + (* inside a half *)
+        apply Nat.eqb_neq in E2.
+        assert (Hsame : hend (S (forward r)) = hend (forward r)).
+        { unfold hend. destruct (forward r <? n) eqn:X.
+          - apply Nat.ltb_lt in X. assert (Y : (S (forward r) <? n) = true) by (apply Nat.ltb_lt; lia). rewrite Y. reflexivity.
+          - apply Nat.ltb_ge in X. assert (Y : (S (forward r) <? n) = false) by (apply Nat.ltb_ge; lia). rewrite Y. reflexivity. }
+        assert (Hin : S (forward r) < hend (forward r)) by (destruct Hcase as [C|C]; rewrite C in *; lia).
+        cbn [buff r1 with_fwd].
+        destruct v' as [|c v''].
+        * (* the half holds nothing more: the sentinel follows *)
+          simpl in Er. cbn [length] in Hmark.
+          destruct (Hmark ltac:(lia)) as [Hz Hs]. replace (forward r + 1) with (S (forward r)) in Hz by lia.
+          rewrite Hz. cbn [N.eqb]. unfold Inv. cbn [with_err buff err r1 with_fwd].
+          split; [exact Hlen|]. rewrite Er, Hs. split; [reflexivity | intros X; contradiction].
+        * (* more bytes of the file follow in this half *)
+          assert (Hc : nth (S (forward r)) (buff r) 0%N = c).
+          { specialize (Hcells 1 ltac:(simpl; lia)). replace (forward r + 1) with (S (forward r)) in Hcells by lia. exact Hcells. }
+          assert (Hcn : c <> 0%N).
+          { inversion Hnf as [|x l Hx Hl]; subst. rewrite Er in Hl. simpl in Hl. inversion Hl; assumption. }
+          rewrite Hc. destruct (N.eqb_spec c 0%N) as [X|_]; [contradiction|].
+          unfold Inv. split; [exact Hlen|]. rewrite Er. split; [intros X; discriminate|]. intros _.
+          unfold Live. cbn [forward buff err src r1 with_fwd].
+          split; [lia|]. split; [exact Herr|].
+          exists (c :: v''). split; [discriminate|]. split; [reflexivity|].
+          rewrite Hsame. cbn [length] in *. split; [lia|]. split.
+          -- intros j Hj. specialize (Hcells (S j) ltac:(simpl; lia)).
+             replace (S (forward r) + j) with (forward r + S j) by lia. exact Hcells.
+          -- intros Hl2. replace (S (forward r) + S (length v'')) with (forward r + S (S (length v''))) by lia.
+             apply Hmark. lia.
+  Qed.
+
+  Lemma next_at_end r : Inv r [] -> fst (next n r) = None.
+  Proof. intros [_ [He _]]. unfold next. rewrite (He eq_refl). reflexivity. Qed.
+
+  (* THE THEOREM: sequential reading returns exactly the file, whatever the half size and the length *)
+  Theorem read_all_correct file :
+    nul_free file -> read_all n (S (length file)) (new n file) = file.
+  Proof.
+    intros Hnf. pose proof (new_inv file) as Hi.
+    generalize dependent (new n file). induction file as [|b rest IH]; intros r Hi.
+    - simpl. pose proof (next_at_end r Hi) as E. destruct (next n r) as [[x|] r']; [discriminate | reflexivity].
+    - cbn [length read_all].
+      destruct (next_step r b rest Hnf Hi) as [E1 E2].
+      destruct (next n r) as [o r']. cbn [fst snd] in E1, E2. subst o.
+      f_equal. apply IH; [inversion Hnf; assumption | exact E2].
   Qed.
 End Sequential.
